@@ -33,3 +33,24 @@ func VerifSetServiceRules(id string, texts []string) (err error) {
 
 	return nil
 }
+
+// VerifStartNoLoop does what Start does except starting updatesLoop: it makes
+// the channel of pending engine initialisations and registers the HTTP
+// handlers.  The harness plays the loop's part itself (VerifRunPendingInit),
+// so that nothing depends on when a goroutine gets to run.
+func (d *DNSFilter) VerifStartNoLoop() {
+	d.filtersInitializerChan = make(chan filtersInitializerParams, 1)
+	d.RegisterFilteringHandlers()
+}
+
+// VerifRunPendingInit is the first arm of updatesLoop's select, run once,
+// synchronously: a pending engine initialisation (queued by
+// EnableFilters(true)) is carried out with initFiltering.
+func (d *DNSFilter) VerifRunPendingInit() (ran bool, err error) {
+	select {
+	case params := <-d.filtersInitializerChan:
+		return true, d.initFiltering(params.allowFilters, params.blockFilters)
+	default:
+		return false, nil
+	}
+}
